@@ -8,23 +8,31 @@ import (
 	ck "verifharness/chainkit"
 )
 
-func TestDbg(t *testing.T) {
+func TestDbg19(t *testing.T) {
 	raw, _ := os.ReadFile(os.Getenv("DBG"))
-	var rf struct{ Case histCase `json:"case"` }
+	var rf struct {
+		Case c19Case `json:"case"`
+	}
 	if err := json.Unmarshal(raw, &rf); err != nil {
 		t.Fatal(err)
 	}
-	w := ck.Build(rf.Case.Tree)
+	c := rf.Case
+	w := ck.Build(c.Tree)
 	for i, b := range w.Blocks {
-		t.Logf("#%d parent=%d h=%d kinds=%v skipped=%v valid=%v", i, b.Parent, b.Block.Height, b.TxKinds, b.Skipped, b.State.Valid)
+		t.Logf("#%d parent=%d h=%d kinds=%v sup=%d", i, b.Parent, b.Block.Height, b.TxKinds, len(b.Block.SupLinks))
 	}
-	idx := w.Add(ck.BlockDesc{Parent: 9, Txs: []ck.TxDesc{{Kind: "spend", Pick: []int{3, 0}, N: 3}}})
-	b := w.Blocks[idx]
-	par := w.Blocks[9].State
-	for _, tx := range b.Block.Transactions[1:] {
-		for _, id := range tx.SpentOutputIDs {
-			u := par.Utxos[id]
-			t.Logf("probe spends %s kind=%d height=%d amount=%d", id.String(), u.Kind, u.Height, u.Amount)
+	for rep := 0; rep < 3; rep++ {
+		db := ck.NewCrashDB(ck.NewMemDB())
+		var log []string
+		db.Log = &log
+		h, snaps, err := c19RunOn(c, w, len(w.Blocks), db, false)
+		t.Logf("rep %d: err=%v writes=%d snaps=%v", rep, err, db.Writes(), snaps)
+		for _, l := range log {
+			t.Log("   ", l)
 		}
+		for _, d := range h.desc {
+			t.Log(d)
+		}
+		h.n.Stop()
 	}
 }
